@@ -182,8 +182,10 @@ def judge(sc, obs) -> Result:
         ends = [o["t_call"] for o in ops if o.get("op") in ("shutdown", "sigint")]
         t_trigger = min(ends) if ends else out["t_end"]
         for o in ops:
-            if o.get("op") != "accept2":
+            if o.get("op") != "accept2" or o.get("skipped"):
                 continue
+            if o["t_return"] >= out["t_end"]:
+                continue  # not entirely inside the active accept: the guard may legitimately have been free
             if o.get("raised") != "RuntimeError":
                 res.fail("concurrent-accept-not-rejected", f"{tag}: a second accept ({'same' if o['same'] else 'other'} instance) {'returned' if not o.get('raised') else 'raised ' + o['raised']} instead of raising RuntimeError")
             elif o["t_return"] - o["t_call"] > 5e9:
